@@ -14,12 +14,14 @@ CONSTANTS
   SeqAlphaB = {"A", "C", "-"}
   SeqLensB = {3}
   HomoLens = {6, 7, 8, 9}
+  QSeqs = 2
   PairAlpha = {}
   PairLen = 0
 INVARIANT TypeOK
 INVARIANT RoundTripOnClean
 INVARIANT LineParsersKeepGt
 INVARIANT BytesParserKeepsGt
+INVARIANT BytesParserKeepsEmpty
 INVARIANT HasGtCovered
 INVARIANT BlankEdgesAreLost
 INVARIANT LayoutsSound
